@@ -59,11 +59,59 @@ def instances(tier):
     return out
 
 
+def c01_claims(mp, mt, cfg, states, idx, lb, T):
+    """The C01 statement as formulas: result = most probable admissible walk for the longest explainable prefix."""
+    orc = Oracle(mp, mt, cfg)
+    cl = []
+    if not states:
+        cl.append(('empty_means_no_admissible_start',
+                   z3.And(idx == 0, *[z3.Not(orc.adm_strict(w)) for w in orc.walks(1)])))
+        return cl
+    k = idx + 1
+    got = [m.shortkey for m in lb]
+    L = E.lift(lb[-1].logprob)
+    walk_ok = len(got) == k and all(b in orc.succ(a) for a, b in zip(got, got[1:])) and got[0] in orc.start_states()
+    cl.append(('result_is_a_walk_of_the_state_space', z3.BoolVal(bool(walk_ok and list(states) == got))))
+    if not walk_ok:
+        return cl
+    sg = orc.score(got)
+    cl.append(('returned_path_admissible', orc.adm_loose(got)))
+    cl.append(('reported_score_is_path_score', z3.And(L <= sg + TOL, L >= sg - TOL)))
+    if k < T:
+        cl.append(('prefix_is_longest', z3.And(*[z3.Not(orc.adm_strict(w)) for w in orc.walks(k + 1)])))
+    cl.append(('maximum_probability', z3.And(*[z3.Implies(orc.adm_strict(w), L >= orc.score(w) - TOL)
+                                               for w in orc.walks(k)])))
+    return cl
+
+
+def reuse_claims(ctx):
+    """matcher object used before on another trace (gabs op 'match2'): the claim is about the last plain match()."""
+    r = [x for x in ctx['results'] if x['op'][0] == 'match'][-1]
+    if r['states'] is None:
+        return [('returns_a_list', False)]
+    return c01_claims(r['mp'], r['mt'], ctx['cfg'], r['states'], r['idx'], r['lattice_best'], r['op'][1])
+
+
+def reuse_witness(ctx):
+    first = ctx['results'][0]
+    t = ['reused_matcher']
+    if first['states'] is not None and (not first['states'] or first['idx'] < first['op'][1] - 1):
+        t.append('previous_call_stopped_early')
+    return t
+
+
+def run_instance(inst):
+    if inst[0] == 'reuse':
+        from symx import gabs
+        return gabs.run(inst[1:], reuse_claims, reuse_witness)
+    return run_instance_fresh(inst)
+
+
 def AbsEdges(g):
     return [(u, v) for u in g for v in g[u] if u != v]
 
 
-def run_instance(inst):
+def run_instance_fresh(inst):
     name, g, kw = inst[:3]
     cfg = Cfg(ne=False, **kw)
     AbsMap = make_absmap_class()
@@ -80,30 +128,7 @@ def run_instance(inst):
         return dict(mp=mp, mt=mt, path=path, states=states, idx=idx)
 
     def claims(eng, v):
-        mp, mt, states, idx = v['mp'], v['mt'], v['states'], v['idx']
-        orc = Oracle(mp, mt, cfg)
-        T = cfg.T
-        cl = []
-        if not states:
-            cl.append(('empty_means_no_admissible_start',
-                       z3.And(idx == 0, *[z3.Not(orc.adm_strict(w)) for w in orc.walks(1)])))
-            return cl
-        k = idx + 1
-        lb = mt.lattice_best
-        got = [m.shortkey for m in lb]
-        L = E.lift(lb[-1].logprob)
-        walk_ok = len(got) == k and all(b in orc.succ(a) for a, b in zip(got, got[1:])) and got[0] in orc.start_states()
-        cl.append(('result_is_a_walk_of_the_state_space', z3.BoolVal(bool(walk_ok and list(states) == got))))
-        if not walk_ok:
-            return cl
-        sg = orc.score(got)
-        cl.append(('returned_path_admissible', orc.adm_loose(got)))
-        cl.append(('reported_score_is_path_score', z3.And(L <= sg + TOL, L >= sg - TOL)))
-        if k < T:
-            cl.append(('prefix_is_longest', z3.And(*[z3.Not(orc.adm_strict(w)) for w in orc.walks(k + 1)])))
-        cl.append(('maximum_probability', z3.And(*[z3.Implies(orc.adm_strict(w), L >= orc.score(w) - TOL)
-                                                   for w in orc.walks(k)])))
-        return cl
+        return c01_claims(v['mp'], v['mt'], cfg, v['states'], v['idx'], v['mt'].lattice_best, cfg.T)
 
     def concrete_run(tab, thr):
         with shims.concrete():
@@ -191,6 +216,9 @@ def main(tier):
     rep.extra['shards'] = len(shards)
     rep.extra['per_shard_budget_s'] = round(per_shard, 1)
     res = runner.merge_shards(run_instances(run_instance, shards))
+    MDk = dict(sym_maxdist=True, sym_init=False, sym_minprob=False)
+    reuse = [('reuse', gn, NAMED[gn], dict(fam=fam, T=2, ne=False, **MDk), [('match2', 2), ('match', 2)], {}, 60) for gn in ('oneway2', 'oneway3') for fam in ('simple', 'dist')]
+    res += runner.merge_shards(run_instances(run_instance, reuse))
     rep.bounds = dict(graphs="every digraph on <=3 nodes up to isomorphism" + (" with <=4 directed edges" if tier == 'quick' else "")
                              + ("; 4-node set fork,path4,sq,star,tri_chord,oneway4,diamond" if tier != 'quick' else "; fork, oneway3"),
                       T="trace length 1..3 (3 only up to 4 directed edges)" if tier != 'quick' else "T=2 (T=3 on fork/oneway3/line2, T=1 on line2)",
@@ -227,6 +255,9 @@ def replay_file(path):
     import_repo()
     with open(path) as f:
         d = json.load(f)
+    if d.get('kind') == 'gabs':
+        from symx import gabs
+        return gabs.replay(path, reuse_claims)
     TableMap = make_tablemap_class()
     cfg = Cfg(ne=False, **d['cfg'])
     mp = TableMap(d['graph'], d['table'])
